@@ -473,6 +473,18 @@ def pathLaws : MLaws (pathOps E) where
   repr_remove := fun m L id h hU => prepr_remove m L id h hU
   remove_some := fun m L id r h hU hr _ hid => premove_some m L id r h hU hr hid
   remove_none := fun m L id h hno => premove_none m L id h hno
+  remove_pos := by
+    intro m L id h hs
+    have hex : ∃ r ∈ L, r.id = id := by
+      apply Classical.byContradiction; intro hne
+      have := premove_none m L id h (fun r hr e => hne ⟨r, hr, e⟩)
+      have hs' : (Path.remove id m).2.isSome = true := hs
+      rw [this] at hs'; simp at hs'
+    obtain ⟨r, hr, _⟩ := hex
+    have := List.length_pos_of_mem hr
+    have := h.len
+    show 0 < m.count
+    omega
   repr_batch := fun m L ids h => prepr_batch m L ids h
   mem_match := fun m L q r h _ => path_mem_match E m L h q r
   nodup_match := fun m L q h _ => path_nodup_match E m L h q
